@@ -1,5 +1,6 @@
 SPECIFICATION Spec
 CONSTANT Slice = 4
 CONSTANT Level = 1
+CONSTANT PairSlice = 0
 INVARIANT Emit
 INVARIANT Laws
